@@ -42,7 +42,11 @@ mod native {
         std::env::set_current_dir(&dir).unwrap();
         let tracker = "http://tracker.example:6969/announce?key=Ab1".to_string();
         let mut checked = 0;
-        for (k, len) in [0usize, 1, l - 1, l, l + 1, 2 * l, 2 * l + 12345].iter().enumerate() {
+        let deep = std::env::var("RDEST_VERIF_TIER").map(|t| t == "thorough").unwrap_or(false);
+        let mut lens = vec![0usize, 1, l - 1, l, l + 1, 2 * l, 2 * l + 12345];
+        if deep { lens.extend_from_slice(&[2, 4095, 3 * l - 1, 3 * l, 4 * l + 1, 10 * l + 17, 33 * l]); }
+        let total = lens.len();
+        for (k, len) in lens.iter().enumerate() {
             let name = format!("data{}.bin", k);
             let data: Vec<u8> = (0..*len).map(|i| ((i * 31 + 7 + k) % 251) as u8).collect();
             std::fs::write(dir.join(&name), &data).unwrap();
@@ -67,7 +71,7 @@ mod native {
             }
             checked += 1;
         }
-        assert!(checked == 7);
+        assert!(checked == total);
         std::env::set_current_dir("/").unwrap();
         let _ = std::fs::remove_dir_all(&dir);
     }
